@@ -144,8 +144,33 @@ def _chk_unique_name_reset(ctx, px, items):
              for n in ast.walk(r.node))
     if not ok:
         return False, "reset() no longer installs a fresh instance"
+    # a fresh instance has fresh counters: every container the generator's __call__ reads through `self` is created in __init__,
+    # not once in the class body (a class-level dict is shared by all instances and survives the reset)
+    cls = px.cls("nunavut.lang._common", "UniqueNameGenerator")
+    call = cls.methods.get("__call__")
+    init = cls.methods.get("__init__")
+    if call is None:
+        return False, "UniqueNameGenerator.__call__ vanished"
+    read = {n.attr for n in ast.walk(call.node) if isinstance(n, ast.Attribute) and isinstance(n.value, ast.Name) and n.value.id == "self" and n.attr not in cls.methods}
+    made = set()
+    if init is not None:
+        for n in ast.walk(init.node):
+            tg = n.targets if isinstance(n, ast.Assign) else ([n.target] if isinstance(n, ast.AnnAssign) and n.value is not None else [])
+            for t_ in tg:
+                if isinstance(t_, ast.Attribute) and isinstance(t_.value, ast.Name) and t_.value.id == "self":
+                    made.add(t_.attr)
+    class_level = set()
+    for st in cls.node.body:
+        tg = st.targets if isinstance(st, ast.Assign) else ([st.target] if isinstance(st, ast.AnnAssign) and st.value is not None else [])
+        for t_ in tg:
+            if isinstance(t_, ast.Name) and isinstance(st.value, (ast.Dict, ast.List, ast.Set, ast.Call, ast.DictComp, ast.ListComp)):
+                class_level.add(t_.id)
+    shared = sorted((read - made) | (read & class_level - made))
+    if shared:
+        return False, (f"counters {shared} are not created per instance (class-level container / never assigned in __init__): reset() installs a new instance but the "
+                       "numbering continues from the previous file, so a file's temporaries depend on what was generated before it")
     # and _generate_code is the only route to rendering: both per-file entries call it
-    return True, "reset() installs a fresh instance unconditionally before any template output is consumed"
+    return True, "reset() installs a fresh instance (with its own counters) unconditionally before any template output is consumed"
 
 
 def _chk_now_utc(ctx, px, items):
@@ -292,6 +317,12 @@ def rule_state(ctx, px):
         cat, chk = cl
         ok, why = chk(ctx, px, sites)
         ctx.ob(R, f.module.rel, construct, ok, f"[{cat}] {why}", node.lineno)
+    if ("UniqueNameGenerator", "_index_map") not in groups:
+        # the counters are written through an alias (keymap = self._index_map[key]; keymap[token] = ...): still per-file state
+        ok, why = _chk_unique_name_reset(ctx, px, [])
+        u = px.func("nunavut.lang._common", "UniqueNameGenerator.__call__")
+        ctx.ob(R, u.module.rel, "UniqueNameGenerator counters written in UniqueNameGenerator.__call__", ok, f"[reset-per-file] {why}", u.node.lineno)
+        n += 1
     ctx.floor(R, n, 4)
 
 
